@@ -355,7 +355,7 @@ def run_miri(eng, lines, seed):
     rng = random.Random(seed)
     sample = lines if len(lines) <= eng.miri else rng.sample(lines, eng.miri)
     numbered = ["%d %s %s" % (k, eng.name, l) for k, l in enumerate(sample)]
-    env = dict(ENV, MIRIFLAGS="-Zmiri-disable-isolation -Zmiri-ignore-leaks", CARGO_TARGET_DIR=os.path.join(BUILD, "miri"))
+    env = dict(ENV, MIRIFLAGS="-Zmiri-disable-isolation -Zmiri-ignore-leaks", CARGO_TARGET_DIR=os.path.join(BUILD, "miri"), GA_FLUSH="1")
     cmd = ["cargo", "+nightly", "miri", "run", "--offline", "--quiet", "--bin", eng.bin]
     if eng.features:
         cmd += ["--features", ",".join(eng.features)]
